@@ -35,6 +35,9 @@
    SetSchema / Import, the write branch is dead; Fixed = the candidate repair
    (stateNamesExport becomes an atomic.Pointer).
 
+   The table follows /repo at commit 296eb40 ("fix: WhenQuery with a context
+   no longer panics").
+
    Proof-free. *)
 From Coq Require Import List Bool Arith String.
 From AMV Require Import Conc.Locks.
@@ -284,7 +287,11 @@ Definition p_processQueue : prog :=
      [Atomic a_cur] ++ p_Log ++
      p_newTransition ++
      locked schemaMx Sh (p_emitEvents ++ [Atomic a_cur]) ++
-     p_processSubs ++ [Atomic a_curTx; Atomic a_flags]) ++
+     p_processSubs ++
+     (* a canceled mutation still releases the waiters of its queue tick *)
+     locked activeStatesMx Sh
+       ([Read queueTick] ++ locked subsMx Ex ([Read subsQueue; Write subsQueue] ++ p_log)) ++
+     [Atomic a_curTx; Atomic a_flags]) ++
   p_tracers ++
   locked queueMx Ex (locked subsMx Ex [Read subsQueue; Write subsQueue]).
 
@@ -387,7 +394,7 @@ Definition p_VerifyStates : prog := p_flags ++ locked schemaMx Sh p_verifyInner.
 Definition p_SetSchema : prog :=
   [Atomic a_curTx] ++
   Acq schemaMx Ex :: Acq queueMx Sh ::
-  ([Read schema; Write schema] ++ p_verifyInner ++ p_Clock ++
+  ([Read schema; Write schema] ++ p_verifyInner ++
    locked subsMx Ex [Write subsClock]) ++
   [Rel schemaMx Ex] ++
   [Read schema; Read stateNames; Write resolver; Read resolver] ++ p_log ++ p_tracers ++
